@@ -19,6 +19,26 @@ CLAIMS = {
    technique="contract-based deductive verification: typed-IR VC generation + z3 (bit-vectors) + lemma layer over contract clauses",
    ref="DESIGN.md 4 (C02)"),
 }
+
+KERNEL_NOTE = "Trusted: Numba after type inference/LLVM (incl. parfor conversion: sequential semantics + proved row-disjoint writes), the primitive table skv/sem.py (cross-checked concretely against the real functions every run), z3, induction over histories (meta-theorem), ghost sums S/f as described in DESIGN 4, no aliasing of merge operands. Class-method glue (caps, wrappers, save/load) is covered by front end B rows (kind G) when present in the evidence; otherwise it is assumed. Run-time contract evaluation and float stand-ins are bounded and never counted as proved."
+TECH = "contract-based deductive verification: typed-IR VC generation + z3, sidecar contracts, lemma layer over contract clauses"
+CLAIMS.update({
+ "C01": dict(level=PROOF, ref="DESIGN.md 4 (C01)", technique=TECH, note=KERNEL_NOTE,
+   text="_query_linear, _add_linear (property-derived clauses: key's counters end >= min(old_min+v, ceiling), no counter decreases, only the key's counter of a row may change and by at most v) and _merge_linear (saturating cell-wise sum) are proved from the typed IR for all tables, widths, depths, keys and multiplicities; the lemma layer proves that the representation invariant I1 (cell >= min(f,2^32-1) for every key's cells; cell <= min(collision sum,2^32-1)) is established by the empty sketch and preserved by add (any requested multiplicity) and merge, and that I1 gives true <= estimate <= every row's collision sum and exactness for a collision-free row."),
+ "C03": dict(level=PROOF, ref="DESIGN.md 4 (C03)", technique=TECH, note=KERNEL_NOTE,
+   text="heavy-hitter _add, _merge, _max_count are proved against exact Boyer-Moore cell contracts in which a key's identity is (zero padded bytes, length), for all shapes, keys and multiplicities; lemmas prove that 'a cell storing identity x has count <= f(x)' is established, preserved by add and merge, and implies hh[key] <= true count and 0 for never-added keys."),
+ "C04": dict(level=PROOF, ref="DESIGN.md 4 (C04)", technique=TECH, note=KERNEL_NOTE + " The statement is proved absent 32-bit saturation, as the property says.",
+   text="Same kernel contracts as C03; lemmas prove the potential bound Phi_x(r) >= 2f(x) - W_r is established, preserved by add (all five cases) and super-additive under merge, that hh[x] >= 2f - W_r when positive, and that a majority key is stored in its cell in every row with count >= 2f - N and the strictly largest reported count."),
+ "C05": dict(level=PROOF, ref="DESIGN.md 4 (C05)", technique=TECH, note=KERNEL_NOTE + " float64 treated as real in the log kernels.",
+   text="Exact contracts of _add_linear, _add_log16, _add_log8, _log_counter, _rand, _counter2value and the three _query kernels are proved from the typed IR; lemmas derive each clause of the statement (key estimate = min(old+v, ceiling); log counter advances 0..v and exactly v in the reserved range; no other estimate decreases or ends above max(own old, key's new); at most one counter per row changes; n_added grows by v) for every state satisfying the shape invariant."),
+ "C06": dict(level=PROOF, ref="DESIGN.md 4 (C06)", technique=TECH, note=KERNEL_NOTE + " float64 treated as real; POW axiom instances b^0=1, b^1=b, b^(x+1)=b*b^x, b^-x*b^x=1; uniformity of numpy's generators assumed. Float rounding at the decision boundary and the log merges' rounding branch are covered only by bounded stand-ins (every counter value x configuration grid x draws below/at/above the boundary).",
+   text="_log_counter's one-step law (advance iff draw < base^-(c-nr), the draw being the value _rand hands out; exact while below num_reserved; absorbing ceiling), _rand's pointer/refill contract and the add kernels are proved from the typed IR over reals; lemmas prove decode is the identity up to num_reserved+1, the decoded value rises by base^(c-nr) so probability*rise = 1 (unbiased), and the lower bound counter >= min(f, num_reserved+1) is preserved by adds."),
+ "C09": dict(level=PROOF, ref="DESIGN.md 4 (C09)", technique=TECH, note=KERNEL_NOTE + " Log merges: reserved-range and saturation clauses, counters, frame and parallel row-disjointness are proved over reals; the rounding branch (nearest decoded counter) is NOT proved - it is covered by the bounded float stand-in (log8: all 256x256 pairs per configuration; log16: all counters vs empty + sampled pairs).",
+   text="_merge_linear is proved to be the cell-wise saturating sum with the other operand unchanged and counters summed (nested loop invariants, parallel-loop frame obligations); lemmas give commutativity, identity of the empty sketch, merged >= each input and merged estimate >= min(sum of estimates, ceiling). _merge_log16/_merge_log8 are proved for the reserved range (exact sum), saturation at max_count, counters and frame."),
+ "C18": dict(level=PROOF, ref="DESIGN.md 4 (C18)", technique=TECH, note=KERNEL_NOTE + " The constructor clause (accepted configuration => ceiling decodes to max_count, else ValueError) depends on _find_base, 200 float Newton steps outside the verifier's reach: bounded grid stand-in only. Log merges at the ceiling: saturation clause proved over reals + bounded float stand-in.",
+   text="Bit-precise VCs of _add_linear/_merge_linear (no wrap: uint_maxval - count, min_count + value, 64->32 bit stores), _log_counter/_add_log*/_merge_log* (absorbing ceiling) and heavy-hitter _add/_merge (clamping match branch) are proved; lemmas show a key at the ceiling stays there under any add or merge, no add or merge lowers a counter or estimate, and a heavy-hitter count that fills its cell alone only grows and clamps."),
+})
+
 NOT_YET = "check not built yet (construction in progress; see DESIGN.md section 7)"
 
 checks = []
